@@ -61,7 +61,9 @@ func c05Alphabet(files []*sFile, thorough bool) func(hist []sAction) []sAction {
 func c05Check(s *sim, _ bool) vh.HistResult {
 	res := vh.HistResult{Enabled: true}
 	arrivals := map[string]int{}
-	delivered := map[string]bool{} // file key -> delivered in an earlier step
+	lastOfName := map[string]string{} // target name -> "name hash" delivered last
+	superseded := map[string]int{}    // "name hash" -> times it was delivered again after another version
+	delivered := map[string]bool{}    // file key -> delivered in an earlier step
 	agedOut := false               // the in-memory record may be gone (ageing / restart after >24 h)
 	advanced := false
 	// the clock period in which each version was delivered is part of the state: records
@@ -96,6 +98,15 @@ func c05Check(s *sim, _ bool) vh.HistResult {
 			}
 		}
 		for _, arr := range st.Arrived {
+			// A version that arrives again after ANOTHER version of the same name was delivered is,
+			// for the receiver, a new version (the file changed back): it cannot be told apart from
+			// a late duplicate, and discarding it would leave the receiver with superseded content.
+			name := arr[:strings.LastIndex(arr, " ")]
+			if prev, ok := lastOfName[name]; ok && prev != arr && arrivals[arr] > 0 {
+				arrivals[arr] = 0
+				superseded[arr]++
+			}
+			lastOfName[name] = arr
 			arrivals[arr]++
 			if arrivals[arr] > 1 {
 				res.Viol = fmt.Sprintf("step %d %s: %q arrived in the final directory a second time\n%s", i, st.Act, arr, s.trace())
@@ -119,7 +130,12 @@ func c05Check(s *sim, _ bool) vh.HistResult {
 	recs := map[string]int{}
 	for _, r := range last.LogAfter {
 		recs[r]++
-		if recs[r] > 1 {
+		rp := strings.Split(r, "|")
+		rt := rp[0]
+		if rp[1] != "" {
+			rt = rp[1]
+		}
+		if recs[r] > 1+superseded[rt+" "+rp[2]] {
 			res.Viol = fmt.Sprintf("after %s: receive-log record %q written %d times (no crash in this history)\n%s", last.Act, r, recs[r], s.trace())
 			if agedOut {
 				res.Class = "redelivery-after-cache-ageing"
@@ -158,4 +174,42 @@ func TestC05(t *testing.T) {
 	files := c05Files()
 	runSimCheck(t, "C05", "stage retransmission histories (E-HIST)", files, c05Alphabet(files, vh.Thorough()), c05Check, depth,
 		fmt.Sprintf("all histories up to length %d over: file a in 2 parts, file b (1 part) announcing a as predecessor, two unrelated single-part files c and d; every part received up to 2 (thorough: 3) times at any point (before completion, while held, after delivery, after the in-memory record aged out), one 'did you receive' query, one poll, orderly restart, clock +10 s / +25 h, cache ageing (cleanCache called directly), CleanNow; the harness consumes the final directory after every step", depth))
+}
+
+// TestC05Held: exactly-once delivery around a held file that is superseded by a new version.
+func TestC05Held(t *testing.T) {
+	files := []*sFile{
+		{Key: "p1", Name: "p", Data: "PPPP", Cuts: []int64{0, 4}},
+		{Key: "b1", Name: "b", Prev: "p", Data: "CCCCDD", Cuts: []int64{0, 6}},
+		{Key: "b2", Name: "b", Prev: "p", Data: "ccccdd", Cuts: []int64{0, 4, 6}, TimeOff: 60},
+	}
+	alphabet := func(hist []sAction) []sAction {
+		var out []sAction
+		b1done := histCount(hist, "recv", "b1", 0) > 0
+		for _, f := range files {
+			if f.Key == "b2" && !b1done {
+				continue
+			}
+			for p := 0; p < len(f.Cuts)-1; p++ {
+				if histCount(hist, "recv", f.Key, p) < 2 {
+					out = append(out, sAction{Op: "recv", F: f.Key, P: p})
+				}
+			}
+		}
+		if histCount(hist, "poll", "", 0) < 1 {
+			out = append(out, sAction{Op: "poll", F: "b2"}, sAction{Op: "poll", F: "p1"})
+		}
+		for _, op := range []string{"restart", "adv25h", "age", "adv10s"} {
+			if histCount(hist, op, "", 0) < 1 {
+				out = append(out, sAction{Op: op})
+			}
+		}
+		return out
+	}
+	depth := 6
+	if vh.Thorough() {
+		depth = 8
+	}
+	runSimCheck(t, "C05", "retransmissions around a held file that is superseded by a new version (E-HIST)", files, alphabet, c05Check, depth,
+		fmt.Sprintf("all histories up to length %d over: file p (1 part), file b version 1 (1 part, predecessor p) and, after it, version 2 (2 parts); every part up to twice, one poll, orderly restart, clock +10 s / +25 h, cache ageing", depth))
 }
